@@ -76,6 +76,18 @@ def judge(kind: str, canonical: str, variant: str):
     k0, o0 = parse(kind, canonical)
     k1, o1 = parse(kind, variant)
     probs = []
+    # the formatted / compact forms are defined for every object, validated or not
+    cls = lib.IBAN if kind == "iban" else lib.BIC
+    ku, ou = lib.outcome(cls, variant, allow_invalid=True)
+    if ku == "ok":
+        comp_ref = ri.normalise(variant)
+        if str(ou) != comp_ref or ou.compact != comp_ref:
+            probs.append((f"{kind}:compact-of-unvalidated-object-wrong", comp_ref, str(ou)))
+        if kind == "iban" or len(comp_ref) in (8, 11):
+            want_u = ri.formatted(comp_ref) if kind == "iban" else rb.formatted(comp_ref)
+            kf, fu = lib.outcome(lambda: ou.formatted)
+            if kf == "ok" and fu != want_u:
+                probs.append((f"{kind}:formatted-of-unvalidated-object-wrong", want_u, fu))
     if "foreign" in (k0, k1):
         return probs  # C05's subject
     if (k0 == "ok") != (k1 == "ok"):
